@@ -2170,6 +2170,21 @@ pub mod simio {
         pub fn lock(&self) -> StdoutLock<'static> {
             StdoutLock(std::marker::PhantomData)
         }
+        /// `IsTerminal`: the generators' output is redirected into the table file (the documented
+        /// workflow), never a terminal
+        pub fn is_terminal(&self) -> bool {
+            false
+        }
+    }
+    impl StdoutLock<'_> {
+        pub fn is_terminal(&self) -> bool {
+            false
+        }
+    }
+    impl StderrLock<'_> {
+        pub fn is_terminal(&self) -> bool {
+            false
+        }
     }
     /// a `write` on the stdout handle (not `println!`, which is `write_all` underneath)
     fn put(buf: &[u8]) -> io::Result<usize> {
@@ -2222,6 +2237,9 @@ pub mod simio {
     impl Stderr {
         pub fn lock(&self) -> StderrLock<'static> {
             StderrLock(std::marker::PhantomData)
+        }
+        pub fn is_terminal(&self) -> bool {
+            false
         }
     }
     impl io::Write for StderrLock<'_> {
